@@ -227,10 +227,38 @@ Print Assumptions C07_connect_nonvacuous.
 Example C07_connect_pipe_fixed_nonvacuous :
   let '(x, tr) := crun (cinit true false (mkO [0] [0] [0] [true]))
                        ([CPipe2 0 40 false; CPipe2 0 40 false; CPipe 40; CRun] ++ [CClose; CRun]) (fun _ => []) in
-  tr = [CRet 0 0; CReg 1; CRet 1 UV_EALREADY; CReg 1; CRet 2 0; CReg 2; CCb 0 0 SrcSo;
+  tr = [CRet 0 0; CReg 1; CRet 1 UV_EALREADY; CReg 1; CRet 2 0; CReg 2; CCb 0 0 SrcSo; CUsable true;
         CCb 2 UV_EALREADY SrcRejected; CReg 0; CReg 0; CClosed; CReg 0] /\ creg x = 0%nat.
 Proof. vm_compute. split; reflexivity. Qed.
 Print Assumptions C07_connect_pipe_fixed_nonvacuous.
+
+(* ---- a stream whose connect completed with status 0 is readable and writable ---- *)
+(* [CUsable b] is emitted with every connect callback of status 0; b = false would mean that
+   uv__stream_open / maybe_new_socket never set READABLE | WRITABLE on the handle.  For every
+   script (first attempts and retries on the same handle alike, tcp and pipes, both pipe-connect
+   variants), callback behaviour and oracle it is never false; the only states in which the
+   flags may be gone are those where the script itself called uv_shutdown or uv_read_start.
+   Side condition: socket(2) does not fail with EINPROGRESS.  (Before /repo ff67af1 a
+   uv_pipe_connect retried after a failed attempt completed with 0 on a stream that was neither
+   readable nor writable - finding pipe_connect_retry_not_readable_writable, fixed.) *)
+Theorem C07_connected_stream_usable :
+  (forall pfix tcp o os beh, Forall noinp (o_sock o) ->
+     ~ In (CUsable false) (snd (crun (cinit pfix tcp o) os beh))) /\
+  (forall x beh r e, c_req (cs x) = Some r -> snd (stream_connect x beh) = CCb r 0 SrcSo :: e ->
+     exists b e', e = CUsable b :: e').
+Proof. split; [exact connected_stream_usable|exact usable_observed]. Qed.
+Print Assumptions C07_connected_stream_usable.
+
+(* the case that failed before ff67af1: connect to a missing path, retry to the listening
+   one from the callback, uv_write from the second callback - the stream is usable and the
+   write goes through (it feeds the watcher) *)
+Example C07_pipe_retry_usable :
+  let '(x, tr) := crun (cinit false false (mkO [0] [-2; 0] [0] [false; true; false; false]))
+                       [CPipe 40; CRun; CRun; CRun; CRun] (fun k => match k with 0%nat => [CPipe 40] | 1%nat => [CWrite] | _ => [] end) in
+  filter (fun e => match e with CReg _ => false | _ => true end) tr =
+    [CRet 0 0; CCb 0 (-2) SrcDelayed; CRet 1 0; CCb 1 0 SrcSo; CUsable true] /\ cwr x = Some true.
+Proof. vm_compute. split; reflexivity. Qed.
+Print Assumptions C07_pipe_retry_usable.
 
 (* ---- request accounting: loop->active_reqs.count, uv_loop_alive, uv_loop_close ---- *)
 (* [creg] mirrors uv__req_init (register) / uv__req_unregister.  In every reachable state
